@@ -32,6 +32,17 @@ type controllingSelector struct {
 	log           logging.LeveledLogger
 	// lastRenomination is the highest nomination value whose success response was applied.
 	lastRenomination *uint32
+	// pendingRenomination is the newest renomination that has not been answered yet.
+	pendingRenomination *pendingRenomination
+}
+
+// pendingRenomination is a renomination request waiting for its success response. A Binding
+// request that is sent only once can be lost, and the nomination with it: the request is sent
+// again, with the same nomination value, on every check tick until it is answered.
+type pendingRenomination struct {
+	pair  *CandidatePair
+	value uint32
+	sent  uint16
 }
 
 func (s *controllingSelector) Start() {
@@ -71,6 +82,7 @@ func (s *controllingSelector) ContactCandidates() {
 			}
 
 			s.checkForAutomaticRenomination()
+			s.resendPendingRenomination()
 		}
 	case s.nominatedPair != nil:
 		s.nominatePair(s.nominatedPair)
@@ -85,6 +97,27 @@ func (s *controllingSelector) ContactCandidates() {
 			return
 		}
 		s.agent.pingAllCandidates()
+	}
+}
+
+// renominationSent records the newest renomination so that it is repeated until answered.
+func (s *controllingSelector) renominationSent(pair *CandidatePair, value uint32) {
+	s.pendingRenomination = &pendingRenomination{pair: pair, value: value, sent: 1}
+}
+
+func (s *controllingSelector) resendPendingRenomination() {
+	pending := s.pendingRenomination
+	if pending == nil {
+		return
+	}
+	if pending.sent >= s.agent.maxBindingRequests || s.agent.findPair(pending.pair.Local, pending.pair.Remote) != pending.pair {
+		s.pendingRenomination = nil
+
+		return
+	}
+	pending.sent++
+	if err := s.agent.sendNominationRequest(pending.pair, pending.value); err != nil {
+		s.log.Warnf("Failed to repeat renomination %d: %v", pending.value, err)
 	}
 }
 
@@ -207,6 +240,9 @@ func (s *controllingSelector) HandleSuccessResponse(
 		// If this is a renomination request (has nomination value), always update the selected pair
 		// If it's a standard nomination (no value), only set if no pair is selected yet
 		if pendingRequest.nominationValue != nil {
+			if s.pendingRenomination != nil && *pendingRequest.nominationValue >= s.pendingRenomination.value {
+				s.pendingRenomination = nil
+			}
 			// Last nomination wins: responses can overtake each other, so a response to an
 			// older renomination must not undo a newer one that was already applied.
 			if s.lastRenomination == nil || *pendingRequest.nominationValue > *s.lastRenomination {
